@@ -156,4 +156,7 @@ func VerifHarness_C45_ScanInternalDBBounded_Thorough() {
 	hInternalScanVia(2, 2, hScanKinds, true, true)
 }
 
-func VerifHarness_C45_ScanInternalDB3_Thorough() { hInternalScanVia(3, 2, hScanKinds, false, true) }
+func VerifHarness_C45_ScanInternalDB3_Thorough() {
+	hDBLean = true
+	hInternalScanVia(3, 2, hScanKinds, false, true)
+}
